@@ -146,22 +146,74 @@ _RUST = {
 }
 
 
+_RUST_PATHS = ["crates", "src", "Cargo.toml", "Cargo.lock", "build.rs"]
+
+
+def rust_digest(repo=None):
+    """Content hash of every Rust-relevant source file in the repo tree."""
+    import hashlib
+
+    repo = repo or REPO
+    h = hashlib.sha256()
+    files = []
+    for rp in _RUST_PATHS:
+        p = os.path.join(repo, rp)
+        if os.path.isfile(p):
+            files.append(p)
+        elif os.path.isdir(p):
+            for dp, dns, fns in os.walk(p):
+                dns[:] = sorted(d for d in dns if d not in ("target", "__pycache__"))
+                for f in sorted(fns):
+                    files.append(os.path.join(dp, f))
+    for f in files:
+        h.update(os.path.relpath(f, repo).encode() + b"\0")
+        try:
+            with open(f, "rb") as fh:
+                h.update(fh.read())
+        except OSError:
+            pass
+        h.update(b"\0")
+    return h.hexdigest()
+
+
+def _stamp_ok(target, mod, dig):
+    try:
+        with open(os.path.join(target, ".vf-stamp-" + _RUST[mod][0])) as f:
+            return f.read().strip() == dig and os.path.exists(os.path.join(target, "debug", _RUST[mod][1]))
+    except OSError:
+        return False
+
+
 def rust_target_dir():
-    return os.environ.get("VERIF_CARGO_TARGET") or os.path.join(REPO, "target")
+    return os.environ.get("VERIF_RUST_TARGET_USED") or os.environ.get("VERIF_CARGO_TARGET") or os.path.join(REPO, "target")
 
 
-def build_rust(modnames, timeout=1500):
-    """cargo build --offline the crates behind modnames from REPO's tree.
+def build_rust(modnames, timeout=2400):
+    """Make sure fresh builds of the crates behind modnames exist for REPO's current Rust sources.
 
-    Returns (ok, log).  Must be called in the parent before workers start.
+    A stamp file per package records the source digest it was built from, so an unchanged
+    tree costs one hash and no cargo invocation; a scratch copy of the repo whose Rust sources
+    equal /repo's reuses /repo/target.  Returns (ok, log); sets VERIF_RUST_TARGET_USED.
     """
     import subprocess
 
-    env = dict(os.environ, CARGO_NET_OFFLINE="true", CARGO_TARGET_DIR=rust_target_dir())
+    dig = rust_digest()
+    explicit = os.environ.get("VERIF_CARGO_TARGET")
+    cands = [explicit] if explicit else [os.path.join(REPO, "target"), "/repo/target"]
+    for t in cands:
+        if all(_stamp_ok(t, m, dig) for m in modnames):
+            os.environ["VERIF_RUST_TARGET_USED"] = t
+            return True, "up to date (stamp) in " + t
+    target = cands[0]
+    if not explicit and os.path.realpath(REPO) != "/repo" and rust_digest("/repo") == dig:
+        target = "/repo/target"  # same sources as the main repo: build there (warm cache)
+    env = dict(os.environ, CARGO_NET_OFFLINE="true", CARGO_TARGET_DIR=target)
     log = ""
     # one cargo invocation per package: keeps feature unification (and so the
     # build cache) independent of which combination a check asks for
     for m in modnames:
+        if _stamp_ok(target, m, dig):
+            continue
         try:
             p = subprocess.run(
                 ["cargo", "build", "--offline", "-q", "-p", _RUST[m][0]], cwd=REPO, env=env,
@@ -172,6 +224,13 @@ def build_rust(modnames, timeout=1500):
         log += p.stdout[-3000:]
         if p.returncode != 0:
             return False, log
+        if rust_digest() == dig:
+            try:
+                with open(os.path.join(target, ".vf-stamp-" + _RUST[m][0]), "w") as f:
+                    f.write(dig)
+            except OSError:
+                pass
+    os.environ["VERIF_RUST_TARGET_USED"] = target
     return True, log
 
 
